@@ -184,6 +184,16 @@ check("C14", "exploration",
       "get_peeled None is 'no cached information' by contract and not compared against a value; C git cannot read idx v3, so the idx is rewritten after the history was continued; on this tree the bitmap probe shows 0 bitmap-produced answers (find_commit_bitmaps looks hex ids up in a table keyed by binary ids, so BitmapReachability always falls back) - bitmap transparency therefore holds trivially and the check would see it if that changed",
       "DESIGN.md §5 C14")
 
+check("C17", "exploration",
+      "runtime audit monitor (sys.addaudithook) around the library's own checkout code: every mutating file-system call is resolved physically at the moment of the call (realpath of the parent, dir_fd-relative paths via /proc, followed target for calls that follow a final symlink) and classified work-tree / .git / outside, .git writes attributed to the innermost dulwich frame; plus before/after snapshots of a sandbox parent with canaries and of the stable part of .git, plus a marker scan for hostile blob content",
+      "sequences of 1-3 trees written as raw bytes (41 adversarial names: '..', '.', '', .git/.GIT/'.git '/'.git.'/git~1/ADS/HFS-ignorable "
+      "variants, embedded '/', backslashes, absolute paths, drive prefixes; symlinks to absolute/parent/sibling/.git targets; set-id/sticky/"
+      "world-writable/odd modes; gitlinks; pooled names that change type between steps) x drivers {WorkTree.reset_index, reset --hard, "
+      "reset --mixed then --hard, checkout, switch, update_working_tree, clone then checkouts, stash pop of a crafted stash, apply_patch of "
+      "crafted create/modify/delete/rename/copy/mode/symlink diffs} x core.protectNTFS/protectHFS/symlinks unset/true/false.",
+      "a .git write is legitimate only when the innermost dulwich frame is a git-internal writer (file/refs/object_store/pack/reflog/config/repo); set-id/sticky bits on created files are counted, not judged; hostile absolute paths point into the sandbox and the monitor blocks anything that would land beyond it",
+      "DESIGN.md §5 C17")
+
 ALL = ["C%02d" % i for i in range(1, 21)]
 
 
